@@ -18,6 +18,7 @@ func init() {
 		Rules: []Rule{
 			{"ACP-WRAP", ruleACPWrap},
 			{"ACP-NEXTDOC", ruleACPNextDoc},
+			{"MULTI-ADVANCE", ruleMultiAdvance},
 			{"ACP-GATE", ruleACPGate},
 			{"ACP-READ-GATE", ruleACPReadGate},
 			{"ACP-PLUMB", ruleACPPlumb},
@@ -636,4 +637,48 @@ func ruleEventPublic(c *eng.Ctx) {
 		c.Check(allowed[f.Name()], rule, "event.Update."+f.Name(), f.Pos(), "public field (ids, cid, block bytes)",
 			"event.Update gained field "+f.Name()+": update events are handed to every subscriber and to the network layer without a permission check")
 	}
+}
+
+// ruleMultiAdvance: the permissioned fetcher skips a denied document by calling NextDoc again
+// without GetFields; every fetcher that can sit below it must then advance. multiFetcher caches the
+// docID of each child until GetFields — so its NextDoc has to drop a pending, unconsumed selection.
+func ruleMultiAdvance(c *eng.Ctx) {
+	const rule = "MULTI-ADVANCE"
+	perm := c.Anchor(rule, "internal/db/fetcher.(*permissionedFetcher).NextDoc")
+	multi := c.Anchor(rule, "internal/db/fetcher.(*multiFetcher).NextDoc")
+	if perm == nil || multi == nil {
+		return
+	}
+	pinfo := perm.Pkg.TypesInfo
+	// does the denied path re-enter NextDoc without GetFields? (if it fetched the fields first the cache would be cleared)
+	skipsWithoutFields := eng.FindCall(perm.Decl.Body, false, func(cc *ast.CallExpr) bool { return eng.Callee(pinfo, cc) == perm.Obj }) != nil &&
+		eng.FindCall(perm.Decl.Body, false, func(cc *ast.CallExpr) bool { return strings.HasSuffix(eng.CalleeName(pinfo, cc), ".GetFields") }) == nil
+	if !skipsWithoutFields {
+		c.OK(rule, "permissionedFetcher:skip-protocol", perm.Decl.Pos(), "the permissioned fetcher does not skip by bare NextDoc re-entry (nothing to require of the fetchers below)")
+		return
+	}
+	minfo := multi.Pkg.TypesInfo
+	// the cache field: children[..].docID ; cleared somewhere in NextDoc before the selection loop
+	var loop ast.Node
+	ast.Inspect(multi.Decl.Body, func(m ast.Node) bool {
+		if f, ok := m.(*ast.ForStmt); ok && loop == nil {
+			loop = f
+		}
+		return true
+	})
+	cleared := false
+	ast.Inspect(multi.Decl.Body, func(m ast.Node) bool {
+		as, ok := m.(*ast.AssignStmt)
+		if !ok || len(as.Lhs) != 1 || !isFieldNamed(minfo, as.Lhs[0], "docID") {
+			return true
+		}
+		if call, ok := ast.Unparen(as.Rhs[0]).(*ast.CallExpr); ok && strings.HasSuffix(eng.CalleeName(minfo, call), "immutable.None") {
+			if loop == nil || as.Pos() < loop.Pos() {
+				cleared = true
+			}
+		}
+		return true
+	})
+	c.Check(cleared, rule, "multiFetcher.NextDoc:drops-unconsumed-selection", multi.Decl.Pos(), "a document skipped by the wrapper is not yielded again",
+		"multiFetcher.NextDoc keeps the docID last returned by a child until GetFields, and never drops it when NextDoc is called again: the permissioned fetcher's skip of a denied document (NextDoc without GetFields) gets the same docID forever — a showDeleted query by a requester lacking read permission on any document never returns")
 }
